@@ -5,8 +5,71 @@ import props.c03 as _c03
 
 ID = "C07"
 PROJECTION = "C07: complete error records (required_len, len, len_source, layer, layer_start_offset; content value)"
-RULE = _c03.RULE + "; for C07 a case is non-trivial when it is rejected behind the first header (offset > 0 or a content error of an inner layer)"
+RULE = (_c03.RULE + "; for C07 a case is non-trivial when it is rejected behind the first header (offset > 0 or a content error of an inner layer)"
+        "; second comparison: the LenError of IpHeaders::read (LimitedReader) on every bare-IP case against the reference decoder's error")
+
+
+def read_errors_compare(ctx, cases, model_lines):
+    """The std::io::Read based decoders report a LenError only through LimitedReader (IpHeaders::read and the
+    read_limited functions it calls).  Harness bin c07rd runs IpHeaders::read on a Cursor over every case that starts
+    at an IP header; whenever it answers with a length error, the reference decoder (spec part of the runner line for
+    SlicedPacket::from_ip on the same bytes) must name the same required_len / len / layer / offset, and the length
+    source must be the spec's.  Not compared: IPv6 payload_length 0 (the reader limits the packet to 0 bytes where the
+    slice decoders read 'up to the end': the reported record is truthful for that reading; equality with from_slice is
+    C06's known finding F15)."""
+    idx = [i for i, c in enumerate(cases) if c.split()[0] == "ip" and len(c.split()) > 1 and c.split()[1] != "-"]
+    if not idx or model_lines is None:
+        return [], {}
+    ok, out, exe = vlib.harness_build("c07rd", "debug")
+    if not ok:
+        return [(0, "c07rd: harness build failed: " + out[-400:], None)], {}
+    sub = [cases[i] for i in idx]
+    r = vlib.run_sharded([exe], sub, "C07rd_i")
+    orc = []
+    n_len = 0
+    for k, il in zip(idx, r):
+        if il.startswith("PANIC") or il.startswith("CRASH"):
+            orc.append((k, "IpHeaders::read: " + il, None))
+            continue
+        if not il.startswith("err len"):
+            continue
+        data = bytes.fromhex(cases[k].split()[1])
+        if len(data) >= 6 and data[0] >> 4 == 6 and data[4] == 0 and data[5] == 0:
+            continue
+        n_len += 1
+        sl = model_lines[k].split(" | ")[1] if " | " in model_lines[k] else None
+        if sl is None:
+            continue
+        if not sl.startswith("err len"):
+            orc.append((k, "IpHeaders::read reports '%s' but the wire format prescribes '%s'" % (il, sl), None))
+            continue
+        i, s = _c03._err_fields(il), _c03._err_fields(sl)
+        if s[2] == "slice" and s[3] in ("Ipv4Packet", "Ipv6Packet"):
+            # the slice does not hold the announced packet: the slice decoders stop there, a reader cannot know
+            # and reports the (equally real) fault it meets inside the announced length
+            continue
+        # required_len: the reader asks for the 2 length bytes of a generic extension header first, so it may
+        # name fewer bytes than the whole header needs - still 'a number of bytes the layer really requires'
+        # (len < required <= what the header needs)
+        # or, having read them, the complete header where the slice decoder stops at the 8 byte minimum
+        need = int(s[0])
+        off = int(s[4])
+        if int(s[1]) >= 2 and off + 1 < len(data):
+            if s[3] == "Ipv6ExtHeader":
+                need = max(need, (data[off + 1] + 1) * 8)
+            elif s[3] == "IpAuthHeader":
+                need = max(need, (data[off + 1] + 2) * 4)
+        req_ok = i[0] == s[0] or (int(i[1]) < int(i[0]) <= need)
+        if not req_ok or (i[1], i[3], i[4]) != (s[1], s[3], s[4]):
+            orc.append((k, "IpHeaders::read: length error %s but the real fault is %s" % (il, sl), None))
+        elif i[2] != s[2]:
+            orc.append((k, "IpHeaders::read: len_source %s reported, but the limit of %s bytes comes from %s" % (i[2], i[1], s[2]), None))
+    return orc, {"read_runs": len(idx), "read_len_errors_compared": n_len}
 
 
 def compare(ctx, cases, impl, model_lines):
-    return _c03.compare(ctx, cases, impl, model_lines, full_errors=True)
+    res = _c03.compare(ctx, cases, impl, model_lines, full_errors=True)
+    orc, extra = read_errors_compare(ctx, cases, model_lines)
+    res["oracle_fail"].extend(orc)
+    res.setdefault("extra", {}).update(extra)
+    return res
